@@ -49,6 +49,24 @@ func (w *c08World) line(c *Ctx, in string) {
 		w.agents[parts[1]] = a
 		w.keys[parts[1]] = [2][]byte{key, iv}
 		c.Emit("%s", in)
+	case "reconnect": // reconnect <parent> <child>: the parent reports a successful SMB connect to an agent that exists already
+		pid, _ := strconv.ParseUint(parts[1], 16, 32)
+		cid, _ := strconv.ParseUint(parts[2], 16, 32)
+		kp, kc := w.keys[parts[1]], w.keys[parts[2]]
+		pa := w.agents[parts[1]]
+		req := uint32(0x5000 + len(pa.Tasks))
+		pa.AddRequest(agent.Job{Command: agent.COMMAND_PIVOT, RequestID: req})
+		inner := initPackage(uint32(cid), uint32(cid), kc[0], kc[1], regInfo{})
+		outer := demonRequest(uint32(pid), kp[0], kp[1], []dpkg{{cmd: agent.COMMAND_PIVOT, req: req, body: body(fI(agent.DEMON_PIVOT_SMB_CONNECT), fI(1), fY(inner))}})
+		out := guard(func() string {
+			_, ok := handlers.VerifParseAgentRequest(w.ts, outer, "127.0.0.1")
+			if !ok {
+				return "REJECTED"
+			}
+			return "ok"
+		})
+		w.ts.Take()
+		c.Emit("%s => %s", in, out)
 	case "ptask": // ptask <target> <cmd> <req> <args>
 		a := w.agents[parts[1]]
 		cmd, _ := strconv.ParseUint(parts[2], 10, 32)
@@ -204,6 +222,35 @@ func runC08(c *Ctx) {
 					args = append(args, genArg(r))
 				}
 				w.line(c, fmt.Sprintf("ptask %s %d %d %s", tgt, gen.Pick(r, []uint32{11, 12, 15, 21, 100}), r.U32(), argsStr(args)))
+			}
+			w.line(c, "rootcheckin "+root)
+		}
+		// re-linking: an agent that exists is connected again - through the parent it has, through another agent, or (refused)
+		// through itself or one of its own pivots; tasks afterwards must take the new route
+		if r.Chance(1, 2) {
+			x := all[r.Intn(len(all))]
+			cands := append([]string{root, parents[x], parents[x]}, all...)
+			np := cands[r.Intn(len(cands))]
+			cyclic := false
+			for a := np; a != ""; a = parents[a] {
+				if a == x {
+					cyclic = true
+				}
+			}
+			c.Count(map[bool]string{true: "reconnect.cyclic", false: "reconnect"}[cyclic])
+			if np == parents[x] {
+				c.Count("reconnect.same-parent")
+			}
+			w.line(c, fmt.Sprintf("reconnect %s %s", np, x))
+			if !cyclic {
+				parents[x] = np
+			}
+			for k := 0; k < 1+r.Intn(3); k++ {
+				tgt := all[r.Intn(len(all))]
+				if r.Bool() {
+					tgt = x
+				}
+				w.line(c, fmt.Sprintf("ptask %s %d %d %s", tgt, gen.Pick(r, []uint32{11, 12, 15, 21, 100}), r.U32(), argsStr([]any{genArg(r)})))
 			}
 			w.line(c, "rootcheckin "+root)
 		}
